@@ -235,6 +235,8 @@ pub struct Stats {
     pub inline_polls: u32,
     /// futures of completed future operations destroyed by the library (checked to happen inside the operation's slot)
     pub futures_destroyed_after_completion: u32,
+    /// despawn_threads_if_overloaded ran while callers were scheduling work
+    pub concurrent_despawns: u32,
     /// one task awaited two futures with one waker
     pub joins: u32,
     /// an input stream woke its last waker from its destructor
@@ -315,6 +317,8 @@ pub struct Inner {
     pub panic_case: bool,
     /// logical time of the injected panic (0 = none yet)
     pub panic_clock: u64,
+    /// a despawn that runs concurrently with scheduling calls is in progress
+    pub despawn_in_progress: bool,
     /// panic case without an aftermath phase: nothing is deliberately scheduled once the panic has happened
     pub quiet_panic_variant: bool,
     /// the root has started to release its handles (until then, with root_holds, every object certainly has an owner)
